@@ -1,0 +1,29 @@
+//go:build verif
+// +build verif
+
+package sml
+
+// Hooks for the verification harness in /verif. Built only with -tags verif;
+// nothing here changes the behaviour of the package.
+
+// VerifToken is a lexer token as the parser sees it.
+type VerifToken struct {
+	Type int
+	Val  string
+	Line int
+	Col  int
+}
+
+// VerifLex runs the lexer alone on input and returns every token it emits,
+// comments included, up to and including the EOF or error token.
+func VerifLex(input string) []VerifToken {
+	l := lex(input)
+	result := []VerifToken{}
+	for {
+		t := l.nextToken()
+		result = append(result, VerifToken{int(t.typ), t.val, t.line, t.col})
+		if t.typ == tokenTypeEOF || t.typ == tokenTypeError {
+			return result
+		}
+	}
+}
